@@ -279,6 +279,39 @@ fn history(rng: &mut Rng, len: usize) -> Case {
     let cids: Vec<(Cid64, Vec<u8>)> = (0..ncids).map(|i| { let d = vec![i as u8, 9]; (honest_cid::<64>(rng, &d), d) }).collect();
     let mut tags = vec![format!("hist/peers{npeers}")];
     let mut issued: Vec<u64> = Vec::new();
+    if rng.chance(1, 3) {
+        // several queries for ONE CID whose lookups all miss (in any completion order), some of them cancelled in any
+        // order, then the block arrives: the per-CID query list is exercised with insertions and removals in the middle
+        tags.push("prelude/shared_cid_burst".into());
+        run.new_conn(0);
+        let (c, d) = cids[rng.usize(ncids)].clone();
+        let k = 3 + rng.usize(3);
+        let mut mine: Vec<u64> = (0..k).map(|_| run.get(Some(&c))).collect();
+        issued.extend(mine.iter().copied());
+        run.poll();
+        while !run.open_calls.is_empty() {
+            let (id, _) = run.open_calls[rng.usize(run.open_calls.len())].clone();
+            run.release(id, Release::Miss);
+            if rng.chance(1, 3) {
+                run.poll();
+            }
+        }
+        run.poll();
+        for _ in 0..1 + rng.usize(3) {
+            if mine.is_empty() {
+                break;
+            }
+            let q = mine.remove(rng.usize(mine.len()));
+            run.cancel(q);
+            if rng.chance(1, 4) {
+                run.poll();
+            }
+        }
+        if rng.chance(2, 3) {
+            run.incoming(0, vec![], vec![(c, d)]);
+            run.poll();
+        }
+    }
     for _ in 0..len {
         match rng.below(40) {
             0..=3 => {
